@@ -59,14 +59,14 @@ theorem summaries_of_all_ok (files : List SrcFile)
 /-- the descriptors one source file converts to (empty for `.proto` files and on failure) -/
 def convOf (res : Resolver) : SrcFile → List FileSkel
   | .proto _ _ _ => []
-  | .j5s path imports elems =>
+  | .j5s path imports elems _ =>
     match convertFile res path imports elems with
     | .ok fs => fs
     | _ => []
 
 def convOk (res : Resolver) : SrcFile → Prop
   | .proto _ _ _ => True
-  | .j5s path imports elems => ∃ fs, convertFile res path imports elems = .ok fs
+  | .j5s path imports elems _ => ∃ fs, convertFile res path imports elems = .ok fs
 
 theorem convertAll_ok (res : Resolver) (files : List SrcFile) (out : List FileSkel)
     (h : convertAll res files = .ok out) :
@@ -85,7 +85,7 @@ theorem convertAll_ok (res : Resolver) (files : List SrcFile) (out : List FileSk
       rcases List.mem_cons.mp hg with rfl | hg'
       · trivial
       · exact e2 g hg'
-    | j5s path imports elems =>
+    | j5s path imports elems decl =>
       unfold convertAll at h
       cases hc : convertFile res path imports elems with
       | err t => simp [hc] at h
@@ -113,8 +113,8 @@ theorem convertAll_of_all_ok (res : Resolver) (files : List SrcFile)
     have ihr := ih (fun g hg => h g (List.mem_cons_of_mem _ hg))
     cases f with
     | proto path msgs enums => simpa [convertAll, convOf] using ihr
-    | j5s path imports elems =>
-      obtain ⟨fs, hfs⟩ := h (.j5s path imports elems) (by simp)
+    | j5s path imports elems decl =>
+      obtain ⟨fs, hfs⟩ := h (.j5s path imports elems decl) (by simp)
       unfold convertAll
       simp only [hfs, ihr]
       simp [convOf, hfs]
@@ -403,7 +403,7 @@ theorem loadPkg_perm_files (b : Bundle) (name : Str) (p : Pkg) (files' : List Sr
           have := hcok f (hperm.mem_iff.mpr hf)
           cases f with
           | proto path msgs enums => trivial
-          | j5s path imports elems =>
+          | j5s path imports elems decl =>
             obtain ⟨fs, hfs⟩ := this
             exact ⟨fs, by rw [hconv]; exact hfs⟩
         have hc' := convertAll_of_all_ok (mkResolver name (files'.map sumOf) ls') files' hcok'
@@ -412,7 +412,7 @@ theorem loadPkg_perm_files (b : Bundle) (name : Str) (p : Pkg) (files' : List Sr
           intro f
           cases f with
           | proto path msgs enums => rfl
-          | j5s path imports elems => simp only [convOf, hconv]
+          | j5s path imports elems decl => simp only [convOf, hconv]
         refine ⟨mkLoaded name { p with files := files' } (files'.map sumOf) ls'
           (files'.flatMap (convOf (mkResolver name (files'.map sumOf) ls'))), ?_, ?_⟩
         · rw [loadPkg]
